@@ -107,7 +107,7 @@ theorem readLoop_psi (hS : Setup P c aL aS nL n) (hA : Accepts P c aL aS nL n) (
     · simp only [hemp, if_true]
       have hlen0 : P.len ≠ 0 := by have := hS.l_pos; omega
       by_cases hn0 : s1.nbPkt = 0
-      · simp [hn0, hlen0]
+      · simp only [hn0, if_true]; rw [if_pos hlen0]; exact hP1
       · simp only [hn0, if_false]; exact hP1
     · simp only [hemp, Bool.false_eq_true, if_false]
       have hne : s1.blocks ≠ [] := fun h => hemp (List.isEmpty_iff.mpr h)
